@@ -179,7 +179,11 @@ func (g *gen) syncFrames() {
 	}
 	for len(g.frames) < len(is) {
 		c := is[len(g.frames)]
-		g.frames = append(g.frames, gframe{s: g.sidx(c), fn: c.NextIP(), isCall: g.lastCall, dynamic: g.lastDyn, remaining: g.r.Range(2, 14), fresh: true})
+		rem := g.r.Range(3, 24)
+		if len(g.frames) == 0 {
+			rem = 1 << 30 // the entry context runs until the budget is used up
+		}
+		g.frames = append(g.frames, gframe{s: g.sidx(c), fn: c.NextIP(), isCall: g.lastCall, dynamic: g.lastDyn, remaining: rem, fresh: true})
 	}
 }
 
@@ -485,6 +489,12 @@ func (g *gen) choose(f *gframe) []insn {
 	}
 	grow := refs < 1200 || (g.wild && r.Chance(1, 2))
 
+	if g.allowCycles && r.Chance(1, 5) {
+		if ins := g.cyclic(p, grow); len(ins) > 0 {
+			return ins
+		}
+		p.ins, p.vs = nil, g.top()
+	}
 	for try := 0; try < 20; try++ {
 		p.ins, p.vs = nil, g.top()
 		switch r.Weighted([]int{10, 12, 12, 8, 6, 10, 8, 9, 6, 5, 9, 3, 4, 3, 2}) {
@@ -824,6 +834,101 @@ func (g *gen) choose(f *gframe) []insn {
 		}
 	}
 	return []insn{opI(opcode.NOP)}
+}
+
+// cyclic plans what only matters once cycles exist: put a compound into something it already
+// contains (or into itself), and forget the outside references to such structures.
+func (g *gen) cyclic(p *plan, grow bool) []insn {
+	r := g.r
+	ctx := g.v.Context()
+	switch r.Intn(3) {
+	case 0: // container c receives an item from which c is reachable
+		if !grow {
+			return nil
+		}
+		c, ok := p.compound(func(stackitem.Item) bool { return true })
+		if !ok {
+			return nil
+		}
+		srcs := p.sources(func(it stackitem.Item) bool { return reachesItem(it, c) })
+		if len(srcs) == 0 {
+			return nil
+		}
+		_, isMap := c.(*stackitem.Map)
+		if isMap {
+			p.key()
+			p.bring(srcs[r.Intn(len(srcs))])
+			p.op(opcode.SETITEM)
+		} else if seqLen(c) > 0 && r.Bool() {
+			p.emit(pushIntI(int64(r.Intn(seqLen(c)))))
+			p.pushV(stackitem.Make(0))
+			p.bring(srcs[r.Intn(len(srcs))])
+			p.op(opcode.SETITEM)
+		} else {
+			p.bring(srcs[r.Intn(len(srcs))])
+			p.op(opcode.APPEND)
+		}
+	case 1: // forget a slot that holds a compound
+		type sl struct {
+			st, stn opcode.Opcode
+			s       *vm.Slot
+		}
+		all := []sl{{opcode.STLOC0, opcode.STLOC, ctx.LocalsSlot()}, {opcode.STARG0, opcode.STARG, ctx.ArgumentsSlot()}, {opcode.STSFLD0, opcode.STSFLD, ctx.StaticsSlot()}}
+		c := all[r.Intn(3)]
+		var idx []int
+		for i, it := range slotItems(c.s) {
+			if it != nil && isCompound(it) {
+				idx = append(idx, i)
+			}
+		}
+		if len(idx) == 0 {
+			return nil
+		}
+		i := idx[r.Intn(len(idx))]
+		if r.Bool() { // keep one reference on the stack
+			p.op([]opcode.Opcode{opcode.LDLOC, opcode.LDARG, opcode.LDSFLD}[map[opcode.Opcode]int{opcode.STLOC: 0, opcode.STARG: 1, opcode.STSFLD: 2}[c.stn]], byte(i))
+		}
+		p.op(opcode.PUSHNULL)
+		if i <= 6 {
+			p.op(opcode.Opcode(int(c.st) + i))
+		} else {
+			p.op(c.stn, byte(i))
+		}
+	default: // operate on the top reference directly (it may be the last outside reference)
+		if len(p.vs) == 0 || !isCompound(p.vs[0]) {
+			return nil
+		}
+		c := p.vs[0]
+		_, isMap := c.(*stackitem.Map)
+		if seqLen(c) == 0 {
+			return nil
+		}
+		switch r.Intn(4) {
+		case 0:
+			if isMap {
+				p.keyOf(c)
+			} else {
+				p.emit(pushIntI(int64(r.Intn(seqLen(c)))))
+			}
+			p.op(opcode.REMOVE)
+		case 1:
+			if isMap {
+				p.keyOf(c)
+			} else {
+				p.emit(pushIntI(int64(r.Intn(seqLen(c)))))
+			}
+			p.fresh()
+			p.op(opcode.SETITEM)
+		case 2:
+			p.op(opcode.CLEARITEMS)
+		default:
+			if isMap {
+				return nil
+			}
+			p.op(opcode.POPITEM)
+		}
+	}
+	return p.ins
 }
 
 func (g *gen) arith(p *plan, grow bool) {
